@@ -23,14 +23,44 @@ from pathlib import Path
 
 from src.core.base import BaseLintContext, BaseLintRule
 from src.core.constants import Language
+from src.core.linter_utils import load_linter_config
 from src.core.types import Violation
 
+from .config import LazyIgnoresConfig
 from .header_parser import SuppressionsParser
 from .matcher import IgnoreSuppressionMatcher
 from .python_analyzer import PythonIgnoreDetector
 from .skip_detector import TestSkipDetector
-from .types import IgnoreDirective
+from .types import IgnoreDirective, IgnoreType
 from .violation_builder import build_orphaned_violation, build_unjustified_violation
+
+
+# Configuration switch that enables each kind of suppression (see LazyIgnoresConfig)
+_SWITCH_BY_TYPE = {
+    IgnoreType.NOQA: "check_noqa",
+    IgnoreType.TYPE_IGNORE: "check_type_ignore",
+    IgnoreType.PYLINT_DISABLE: "check_pylint_disable",
+    IgnoreType.NOSEC: "check_nosec",
+    IgnoreType.PYRIGHT_IGNORE: "check_pyright_ignore",
+    IgnoreType.TS_IGNORE: "check_ts_ignore",
+    IgnoreType.TS_NOCHECK: "check_ts_ignore",
+    IgnoreType.TS_EXPECT_ERROR: "check_ts_ignore",
+    IgnoreType.ESLINT_DISABLE: "check_eslint_disable",
+    IgnoreType.THAILINT_IGNORE: "check_thailint_ignore",
+    IgnoreType.THAILINT_IGNORE_FILE: "check_thailint_ignore",
+    IgnoreType.THAILINT_IGNORE_NEXT: "check_thailint_ignore",
+    IgnoreType.THAILINT_IGNORE_BLOCK: "check_thailint_ignore",
+    IgnoreType.PYTEST_SKIP: "check_test_skips",
+    IgnoreType.PYTEST_SKIPIF: "check_test_skips",
+    IgnoreType.JEST_SKIP: "check_test_skips",
+    IgnoreType.MOCHA_SKIP: "check_test_skips",
+}
+
+
+def _is_checked(ignore: IgnoreDirective, config: LazyIgnoresConfig) -> bool:
+    """Check whether the configuration asks for this kind of suppression to be checked."""
+    switch = _SWITCH_BY_TYPE.get(ignore.ignore_type)
+    return switch is None or bool(getattr(config, switch))
 
 
 class LazyIgnoresRule(BaseLintRule):
@@ -83,14 +113,18 @@ class LazyIgnoresRule(BaseLintRule):
             return []
 
         file_path = str(context.file_path) if context.file_path else "unknown"
-        return self.check_content(context.file_content, file_path)
+        config = load_linter_config(context, "lazy-ignores", LazyIgnoresConfig)
+        return self.check_content(context.file_content, file_path, config)
 
-    def check_content(self, code: str, file_path: str) -> list[Violation]:
+    def check_content(
+        self, code: str, file_path: str, config: LazyIgnoresConfig | None = None
+    ) -> list[Violation]:
         """Check code for unjustified ignores and orphaned suppressions.
 
         Args:
             code: Source code content to analyze.
             file_path: Path to the file being analyzed.
+            config: Pattern switches from the configuration (defaults when omitted).
 
         Returns:
             List of violations for unjustified and orphaned suppressions.
@@ -110,10 +144,13 @@ class LazyIgnoresRule(BaseLintRule):
         # Build set of normalized rule IDs used in code
         used_rule_ids = self._matcher.collect_used_rule_ids(ignores)
 
-        # Find violations
+        # Find violations (only for the kinds of suppression the configuration asks for)
+        config = config or LazyIgnoresConfig()
+        checked = [ignore for ignore in ignores if _is_checked(ignore, config)]
         violations: list[Violation] = []
-        violations.extend(self._find_unjustified(ignores, suppressions, file_path))
-        violations.extend(self._find_orphaned(suppressions, used_rule_ids, file_path))
+        violations.extend(self._find_unjustified(checked, suppressions, file_path))
+        if config.check_orphaned:
+            violations.extend(self._find_orphaned(suppressions, used_rule_ids, file_path))
 
         return violations
 
